@@ -217,7 +217,8 @@ struct ref_editor
             accepted = line();
             if (depth && !accepted.empty() && accepted != hist[0])
             {
-                hist.push_front(accepted);
+                // remembered as a C string: up to the first NUL (a NUL can be typed, it is not a key of the property)
+                hist.push_front(accepted.substr(0, accepted.find('\0')));
                 hist.pop_back();
             }
             browse = 0;
@@ -808,13 +809,13 @@ static std::string typing(hv::rng &r, unsigned cap, unsigned depth, size_t maxke
     return k.substr(0, maxkeys);
 }
 
-// raw bytes, any value but NUL, control keys frequent
+// raw bytes, any value (NUL rarely), control keys frequent
 static std::string noise(hv::rng &r, size_t n)
 {
     static const std::string hot = "\x08\r\n\x1b[ABCD3~\x03\x7f\t";
     std::string k;
     for (size_t i = 0; i < n; i++)
-        k.push_back(r.chance(55) ? hot[r.below(hot.size())] : r.chance(80) ? (char)r.range(0x20, 0x7e) : (char)r.range(1, 255));
+        k.push_back(r.chance(55) ? hot[r.below(hot.size())] : r.chance(80) ? (char)r.range(0x20, 0x7e) : (char)r.range(r.chance(10) ? 0 : 1, 255));
     return k;
 }
 
@@ -840,8 +841,9 @@ static void gen(hv::rng &r, const std::string &tier)
     const char *VAR[2] = {"c", "x"};
     emit("consts");
     // ---- sline: exhaustive short op histories, then long random ones
+    // (the seed picks the capacity that gets the deepest tree, see the key trees below)
     for (unsigned cap = 2; cap <= 4; cap++)
-        gen_sl_exhaustive(cap, th ? 5 : 4, VAR[cap & 1]);
+        gen_sl_exhaustive(cap, th && cap == 2 + gen_seed % 3 ? 5 : 4, VAR[cap & 1]);
     gen_sl_exhaustive(3, 3, "x");
     gen_sl_exhaustive(2, 3, "x");
     for (int i = 0; i < (th ? 6000 : 1200); i++)
@@ -852,7 +854,7 @@ static void gen(hv::rng &r, const std::string &tier)
         for (size_t j = 0; j < n; j++)
         {
             unsigned p = (unsigned)r.below(100);
-            if (p < 25) s += " p" + hv::hexn(r.range(0x61, 0x7a), 2);
+            if (p < 25) s += " p" + hv::hexn(r.chance(2) ? 0 : r.range(0x61, 0x7a), 2);
             else if (p < 40)
             {
                 size_t m = r.chance(30) ? r.range(cap - 1, cap + 3) : r.range(0, 4);
